@@ -2,15 +2,17 @@
 Model of the legacy extended-name listener machinery for the fragment shared
 with `observe` (property C16):
 
-  traits/traits_listener.py   ListenerItem.register        331-433
-                              ListenerItem.unregister      435-448
-                              handle_simple                450-454
-                              handle_list / _items         473-488
-                              handle_dict / _items         498-529
-                              _register_simple             558-625
-                              _register_list               627-729
-                              _register_dict               741-824
-                              ListenerParser.parse_item    1116-1220 (only: the
+  traits/traits_listener.py   ListenerItem.register        331-438  (as of /repo bead785; the
+                                `except DelegationError` fallback added there only concerns
+                                delegate traits, which the fragment does not contain)
+                              ListenerItem.unregister      440-453
+                              handle_simple                455-459
+                              handle_list / _items         478-493
+                              handle_dict / _items         503-534
+                              _register_simple             563-630
+                              _register_list               632-734
+                              _register_dict               746-829
+                              ListenerParser.parse_item    1121-1225 (only: the
                                 first item carries the handler type, every
                                 later item is ANY_LISTENER; `.`/`:` = notify)
   traits/has_traits.py        _on_trait_change             2192-2265 (add with
@@ -39,7 +41,7 @@ namespace TraitsVerif.Model.Legacy
 /- Object identities are allocation ordinals (`Nat`). -/
 
 /-- Link attributes; the container kind is a function of the attribute
-(`trait.handler.default_value_type`, traits_listener.py:416-421). -/
+(`trait.handler.default_value_type`, traits_listener.py:421-426). -/
 inductive Attr where
   | child | kids | byname
   deriving DecidableEq, Repr
@@ -117,7 +119,7 @@ structure Name where
   deriving Repr
 
 /-- `ListenerItem.type` of item `k` (parse_item: only the first item gets the
-handler's type, "bug-for-bug compatibility", traits_listener.py:1185-1192). -/
+handler's type, "bug-for-bug compatibility", traits_listener.py:1190-1197). -/
 def typeOf (ty0 : LType) (k : Nat) : LType := if k = 0 then ty0 else .any
 
 def isContainer : Attr → Bool
@@ -136,7 +138,7 @@ def linkHooks (ty : LType) (k : Nat) (l : Link) : List (Trait × HRef) :=
   ++ (Trait.link l.attr, HRef.tl k) ::
      (if isContainer l.attr then [(Trait.items l.attr, HRef.tl k)] else [])
 
-/-- The final item: `object._on_trait_change(handler, name, …)` (lines 562-574). -/
+/-- The final item: `object._on_trait_change(handler, name, …)` (lines 567-579). -/
 def finalHooks (f : Final) : List (Trait × HRef) := [(Trait.final f, HRef.user)]
 
 /-- All notifiers item `k` of the chain places on one object. -/
